@@ -5,6 +5,9 @@ Streams (all judged by the extracted acceptors of ThreadModel.v, coq/bin/thread)
             against the Python mirror of the semantics; Python threads over a REAL threading.RLock against the model
   corpus    corpus/C15/*.json  — model-level boundary traces, the public-surface scripts, the witnesses of the findings
   seq       every clean-domain family, engine steps driven by emgrs[i].do() / smgr.do(): every access lock-owned
+  flt       the same with provider faults (harness/families_c10.py injection layer): a deterministic sweep of every call
+            index x 8 kinds over a fixed history, and seeded rate / permanent-path / walk plans: the failure handling of
+            the managers (punt, commit, backoff, reconnect, re-authentication, cursor reset) must be lock-owned too
   threaded  CloudSync.start() with the real threads + application threads: every access lock-owned (deterministic
             observation), convergence of both trees after stop (C01 oracle) for CloudSync
 An access without the lock is reported once per (engine class, public entry point or manager loop)."""
@@ -85,6 +88,25 @@ def _job(args):
                 monitor=("accepted" if res.verdict == [] else EC.describe(res)), nontrivial=(nu >= 1 and res.engine_calls >= 1),
                 cid=fw.case_id(EC.jsonable_case(dict(f=case["flavour"], s=case["schedule"], b=case.get("base"))))[:16],
                 wall=round(time.time() - t0, 3))))
+        elif stream == "flt":
+            case = O.single_fault_case(i) if fam == "flt_single" else O.FAULT_FAMILIES[fam](rng)
+            rec, res = O.observed_faulty(case, _W["monitor"])
+            j = O.judge(rec, _W["thread"])
+            inj = res.extra["c10"]
+            nu = sum(1 for a in case["schedule"] if a[0] == "user")
+            fk = {}
+            for f in inj.injected:
+                fk["%s:%s" % (f["call"], f["kind"])] = fk.get("%s:%s" % (f["call"], f["kind"]), 0) + 1
+            out.append(_summ(O, rec, j, "CloudSync", dict(
+                stream=stream, family=fam, index=i, user_ops=nu, provider_calls=res.engine_calls,
+                monitor=("accepted" if res.verdict == [] else EC.describe(res)[:200]), nontrivial=(nu >= 1 and len(inj.injected) >= 1),
+                faults=fk, punts=sum(st.get("punts", 0) or 0 for st in inj.steps),
+                backoffs=sum(1 for st in inj.steps if st.get("do") == "backoff"),
+                escaped=sum(1 for st in inj.steps if st.get("do") == "exc"),
+                reconnects=sum(1 for st in inj.steps if st.get("reconnect")), reauths=sum(1 for st in inj.steps if st.get("reauth")),
+                cursor_resets=sum(1 for st in inj.steps if st.get("tag_deleted")), steps=len(inj.steps),
+                cid=fw.case_id(EC.jsonable_case(dict(f=case["flavour"], s=case["schedule"], b=case.get("base"))))[:16],
+                wall=round(time.time() - t0, 3))))
         else:
             case = O.THR_FAMILIES[fam](rng)
             r = O.run_threaded(case, budget_s=budget)
@@ -103,6 +125,7 @@ def _job(args):
                 conflicted=O.has_conflicted(r["views_final"]), completion_rounds=r.get("completion_rounds"),
                 index_violations=r.get("index_violations", []),
                 calls=r["stats"]["calls"], call_errors=r["stats"]["call_errors"], loop_errors=r["loop_errors"][:3],
+                faults_fired=r.get("faults_fired", {}),
                 ser_tie=ser_tie, nontrivial=(nu >= 1 and r["provider_calls"] >= 1 and j.threads >= 5),
                 cid=fw.case_id(EC.jsonable_case(dict(f=case["flavour"], s=case["schedule"], b=case.get("base"), k=fam)))[:16],
                 wall=round(time.time() - t0, 2), threaded_wall=r["threaded_wall_s"],
@@ -138,7 +161,7 @@ class Explorer:
                 if not pending:
                     break
                 if grace is None:
-                    grace = now + run_budget * (chunk if stream == "seq" else 1) + 30.0
+                    grace = now + run_budget * (chunk if stream in ("seq", "flt") else 1) + 30.0
                 if now > grace:
                     break       # a worker is stuck: counted as not finished
             time.sleep(0.005)
@@ -317,8 +340,8 @@ def run(ctx):
         n_model, d_model = _model_stream(ctx, cov)
         total += n_model
         # ---- (i) sequential engine runs of every clean-domain family (wall-clock budget per family)
-        seq_plan = [("one_sided", 700, 20000, 5, 70), ("disjoint", 700, 20000, 5, 70), ("conflicts", 400, 10000, 4, 45),
-                    ("confinement", 400, 10000, 4, 45), ("restarts", 300, 8000, 6, 70)]
+        seq_plan = [("one_sided", 700, 20000, 4, 70), ("disjoint", 700, 20000, 4, 70), ("conflicts", 400, 10000, 3, 45),
+                    ("confinement", 400, 10000, 3, 45), ("restarts", 300, 8000, 5, 70)]
         for fam, nq, nt, bq, bt in seq_plan:
             n = nq if ctx.quick else nt
             t0 = time.time()
@@ -358,8 +381,50 @@ def run(ctx):
                 s = runs[0]
                 samples.append(dict(stream="seq", family=fam, index=s["index"], events=s["events"], kinds=s["kinds"],
                                     sections=s["sections"], unlocked=sorted(s["unlocked"]), monitor=s["monitor"]))
+        # ---- (i-f) sequential runs with provider faults: the error paths of the managers (punt, commit, backoff; reconnect,
+        # re-authentication, cursor reset); every step goes through the real Runnable.run loop body
+        n_points = O.single_fault_calls(fw.ModelProc("monitor"))
+        cov["single_fault_points"] = n_points
+        stride = 1
+        flt_plan = [("flt_single", n_points * len(O.FAULT_KINDS), n_points * len(O.FAULT_KINDS), 8, 30),
+                    ("flt_rate", 150, 6000, 4, 60), ("flt_path", 80, 3000, 3, 45), ("flt_walk", 80, 3000, 3, 45)]
+        for fam, nq, nt, bq, bt in flt_plan:
+            n = nq if ctx.quick else nt
+            t0 = time.time()
+            runs, left = ex.run("flt", fam, n, ctx.seed, bq if ctx.quick else bt, chunk=10 if ctx.quick else 25)
+            st = dict(runs=len(runs), events=0, mut=0, sections=0, faults_injected=0, fault_points={}, punts=0, backoffs=0,
+                      exceptions_escaped_do=0, reconnects=0, reauths=0, cursor_resets=0, steps=0, monitor_or_c10_rejected=0,
+                      unlocked_runs=0, deterministic=(fam == "flt_single"))
+            for s in runs:
+                retries += s.get("model_retries", 0)
+                st["events"] += s["events"]
+                st["mut"] += s["kinds"][2]
+                st["sections"] += s["sections"]
+                st["faults_injected"] += sum(s["faults"].values())
+                for k, v in s["faults"].items():
+                    st["fault_points"][k] = st["fault_points"].get(k, 0) + v
+                for k in ("punts", "backoffs", "reconnects", "reauths", "cursor_resets", "steps"):
+                    st[k] += s[k]
+                st["exceptions_escaped_do"] += s["escaped"]
+                st["monitor_or_c10_rejected"] += s["monitor"] != "accepted"     # C10's business (E-8, E-14, E-15): counted only
+                if s["nontrivial"]:
+                    distinct.add(s["cid"])
+                where = "fault-injected sequential family %s #%d%s" % (fam, s["index"], "" if fam == "flt_single" else " (VERIF_SEED=%s)" % ctx.seed)
+                if s["unlocked"]:
+                    st["unlocked_runs"] += 1
+                    findings.add(s, where)
+                if s["lock_errors"] or s["mismatch"] or s["final_lock"] != []:
+                    ctx.violation("%s: the observed trace is not what the model lock allows: lock errors %r, ownership mismatch %r, "
+                                  "final lock %r" % (where, s["lock_errors"], s["mismatch"], s["final_lock"]),
+                                  dict(kind="lock-tie", stream="flt", family=fam, index=s["index"], seed=ctx.seed), no_input=True,
+                                  theorem="correspondence ThreadModel lock vs threading.RLock")
+            st["wall_s"] = round(time.time() - t0, 1)
+            st["not_run_budget_exhausted"] = left
+            cov["streams"][fam] = st
+            total += len(runs)
         # ---- (ii) production-style runs
-        thr_plan = [("thr_plain", 24, 900, 20.0, 45, 240), ("thr_forget", 4, 150, 20.0, 25, 60), ("thr_smart", 12, 450, 12.0, 30, 120)]
+        thr_plan = [("thr_plain", 16, 700, 20.0, 40, 200), ("thr_forget", 4, 100, 20.0, 25, 45), ("thr_faults", 8, 300, 20.0, 30, 100),
+                    ("thr_smart", 6, 250, 8.0, 18, 80), ("thr_smart_faults", 3, 150, 8.0, 14, 60)]
         for fam, nq, nt, budget, bq, bt in thr_plan:
             n = nq if ctx.quick else nt
             t0 = time.time()
@@ -369,7 +434,7 @@ def run(ctx):
                       quiet=0, inconclusive_timeouts=0, stop_timeouts=0, converged_at_stop=0, converged_final=0,
                       public_calls={}, public_call_exceptions={}, unlocked_runs=0, interleaved_unlocked_accesses=0,
                       max_depth=0, max_threads=0, serialise_checked=0, engine_loop_errors=0, threaded_wall_max=0.0,
-                      runs_with_index_violation_at_end=0)
+                      runs_with_index_violation_at_end=0, faults_fired={})
             for s in runs:
                 st["events"] += s["events"]
                 st["acq"] += s["kinds"][0]
@@ -390,6 +455,8 @@ def run(ctx):
                 st["engine_loop_errors"] += len(s["loop_errors"])
                 st["threaded_wall_max"] = max(st["threaded_wall_max"], s["threaded_wall"])
                 st["runs_with_index_violation_at_end"] += bool(s["index_violations"])
+                for k, v in s.get("faults_fired", {}).items():
+                    st["faults_fired"][k] = st["faults_fired"].get(k, 0) + v
                 for k, v in s["calls"].items():
                     st["public_calls"][k] = st["public_calls"].get(k, 0) + v
                 for k, v in s["call_errors"].items():
@@ -415,7 +482,7 @@ def run(ctx):
                 if timed_out:
                     st["inconclusive_timeouts"] += 1
                     inconclusive += 1
-                if fam != "thr_smart":
+                if fam in ("thr_plain", "thr_forget"):      # under faults and on demand, convergence is C10's / C20's: counted only
                     # C01 oracle: at the stop when the run was quiet, and in any case after the leftover work was finished
                     # (`busy` is momentarily false while an event is between the provider's cursor and the pending set, so a
                     # run can be stopped a moment early on a loaded machine: trees that differ AT the stop are counted, and are
